@@ -49,14 +49,30 @@ def nc():
     return ns
 
 
+# Variables a user's shell may well export.  Nothing in netconan's contract reads the environment, so they
+# must not matter; they are set for child interpreters (and, in C19, around in-process runs of main()).
+HOSTILE_ENV = {"NETCONAN_SALT": "saltFromEnvironment", "NETCONAN_INPUT": "/nonexistent/in", "NETCONAN_OUTPUT": "/nonexistent/out",
+               "NETCONAN_UNDO": "true", "NETCONAN_ANONYMIZE_IPS": "true", "NETCONAN_AS_NUMBERS": "64999",
+               "NETCONAN_SENSITIVE_WORDS": "hostname", "NETCONAN_PRESERVE_HOST_BITS": "3", "NETCONAN_CONFIG": "/nonexistent/netconan.cfg",
+               "NETCONAN_LOG_LEVEL": "DEBUG", "SALT": "saltFromEnvironment", "COLUMNS": "40"}
+
+
 def child_env(hashseed=None, extra=None):
-    """Environment for child interpreters that must run the tree under test."""
+    """Environment for child interpreters that must run the tree under test.  Besides the hash seed, the
+    interpreter's optimisation level (-O / -OO strip assert statements) rotates with it."""
     env = dict(os.environ)
     pp = [REPO]
     env["PYTHONPATH"] = os.pathsep.join(pp)
     env["NETCONAN_VERIF"] = "1"
     if hashseed is not None:
         env["PYTHONHASHSEED"] = str(hashseed)
+        opt = ("", "1", "2")[int(hashseed) % 3]
+        if opt:
+            env["PYTHONOPTIMIZE"] = opt
+        else:
+            env.pop("PYTHONOPTIMIZE", None)
+        if int(hashseed) % 2:
+            env.update(HOSTILE_ENV)
     env.pop("PYTHONSTARTUP", None)
     if extra:
         env.update(extra)
